@@ -59,7 +59,11 @@ CONSTANTS MaxSteps,              \* bound on the history length (environment ope
 
 Files == {"a.log", "b.log", "a.log.gz", "notes.txt"}    \* names that are regular files when they exist
 Dirs  == {"d.log"}                                       \* a name that is a directory when it exists
-Names == Files \cup Dirs
+\* a name that is a unix socket FILE when it exists: it matches the globs and is not ignored, but logstream.New
+\* refuses it (unsupported file type) - TailPath returns an error, doPatternGlob logs it and goes on to the next
+\* match.  It sorts between a.log and b.log: what a poll does with it must not matter to the matches after it.
+Socks == {"a0.log"}
+Names == Files \cup Dirs \cup Socks
 
 \* pattern instances: glob + how the user spelled it (the spelling only matters to the harness,
 \* AddPattern makes every spelling absolute and clean before anything else happens)
@@ -68,8 +72,8 @@ GlobOf(p) == CASE p \in {"G1abs", "G1rel"} -> "*.log"     \* <root>/logs/*.log, 
                [] p = "G2rel"              -> "a*"        \* logs/a*, relative
                [] p = "E3dot"              -> "a.log"     \* <root>/logs/./a.log
 \* filepath.Glob
-Matches(g, n) == CASE g = "*.log" -> n \in {"a.log", "b.log", "d.log"}
-                   [] g = "a*"    -> n \in {"a.log", "a.log.gz"}
+Matches(g, n) == CASE g = "*.log" -> n \in {"a.log", "a0.log", "b.log", "d.log"}
+                   [] g = "a*"    -> n \in {"a.log", "a.log.gz", "a0.log"}
                    [] g = "a.log" -> n = "a.log"
 \* the ignore regexp, matched against the base name: ^a.*\.gz$
 IgnMatch(n) == n = "a.log.gz"
@@ -209,7 +213,7 @@ BeginPoll == /\ pc = "idle" /\ Record([op |-> "poll", a |-> "", b |-> ""])
 \* TailPath for every non-ignored match; logstream.New opens the file and seeks to its end
 PollPattern(p) ==
   /\ pc = "poll" /\ p \in todoP
-  /\ LET new == {n \in Names : Matches(GlobOf(p), n) /\ ~Ignored(n) /\ n \notin tailed}
+  /\ LET new == {n \in Names \ Socks : Matches(GlobOf(p), n) /\ ~Ignored(n) /\ n \notin tailed}    \* (TailPath on a socket file fails)
          tl  == tailed \cup new
          st1 == [n \in Names |-> IF n \in new
                                  THEN [live |-> TRUE, fd |-> ino[n], fi |-> ino[n], off |-> Len(content[ino[n]]),
